@@ -85,6 +85,7 @@ fn main() {
         return;
     }
 
+    hdv::cli::set_global(cli.clone(), root.clone());
     let mut ctx = Ctx::new(&id, tier, seed, root.clone());
     ctx.cli = cli;
     ctx.cli_plain = cli_plain;
